@@ -595,6 +595,12 @@ def mutate(data, ctx, d):
             raise ParseFail("pos")
         b[d["pos"]] = d["value"]
         return bytes(b)
+    if d["op"] == "byte_xor":
+        b = bytearray(data)
+        if d["pos"] >= len(b) or not d["mask"]:
+            raise ParseFail("pos")
+        b[d["pos"]] ^= d["mask"]
+        return bytes(b)
     if d["op"] == "dup_msg":
         return bytes(data) * 2
     if d["op"] == "prepend_msg":
